@@ -14,7 +14,7 @@ oracle:         on the real library, independent of the model, for one document 
                 the query, wherever it sits); pairwise infoset comparison (expat) of repeated outputs of the
                 same kind (zips member-wise, timestamps ignored)
 """
-import io, zipfile, json, itertools
+import io, os, zipfile, json, itertools, tempfile, shutil, atexit
 from common import enc_str
 from c10 import parse_infoset, mem_infoset, NS
 import translate_styles
@@ -31,6 +31,40 @@ RES_ELEM = {(OFFICE, 'document'): 1, (OFFICE, 'document-content'): 2, (OFFICE, '
             (OFFICE, 'document-meta'): 4, (OFFICE, 'document-settings'): 5, (OFFICE, 'automatic-styles'): 6,
             GEN: 7, (MANIFEST, 'manifest'): 8, (MANIFEST, 'file-entry'): 9}
 RES_ATTR = {(OFFICE, 'version'): 900, (MANIFEST, 'full-path'): 902, (MANIFEST, 'media-type'): 903}
+
+
+# ------------------------------------------------------------------ picture files (scratch directory, removed at exit)
+_SCRATCH = {'dir': None, 'n': 0}
+
+
+def new_file(data, ext=u'.png'):
+    if _SCRATCH['dir'] is None:
+        _SCRATCH['dir'] = tempfile.mkdtemp(prefix='c12-pictures-')
+        atexit.register(shutil.rmtree, _SCRATCH['dir'], True)
+    _SCRATCH['n'] += 1
+    path = os.path.join(_SCRATCH['dir'], u'pic%d%s' % (_SCRATCH['n'], ext))
+    with open(path, 'wb') as f:
+        f.write(data)
+    return path
+
+
+def picture_files(doc, prefix=u''):
+    """{member name in the package: path} for every picture registered by FILE NAME, in doc and its objects"""
+    out = {}
+    for arc, (what, val, mt) in doc.Pictures.items():
+        if what == 0:                      # IS_FILENAME
+            out[prefix + arc] = val
+    for o in doc.childobjects:
+        out.update(picture_files(o, prefix + o.folder[len(doc.folder) + 1:] + u'/'))
+    return out
+
+
+def touch(doc):
+    """rewrite every picture file of the document with new bytes (the next save must carry them)"""
+    for name, path in sorted(picture_files(doc).items()):
+        _SCRATCH['n'] += 1
+        with open(path, 'wb') as f:
+            f.write(PNG + b'rewritten-%d' % _SCRATCH['n'])
 
 
 # ------------------------------------------------------------------ documents (recipes are pure data)
@@ -116,6 +150,17 @@ def build(r):
                 d.presentation.childNodes[0].addElement(fr)
             else:
                 par = text.P(); par.addElement(fr); d.text.addElement(par)
+        # by file name (two entry points), by content without a name, by href only (nothing registered)
+        refs = [d.addPicture(new_file(PNG + b'file-A')),
+                d.addPictureFromFile(new_file(PNG + b'file-B'), u'image/png'),
+                d.addPictureFromString(PNG + b'from-string', u'image/png'),
+                u'http://example.org/remote.png']
+        for ref in refs:
+            fr = draw.Frame(width=u'1cm', height=u'1cm', anchortype=u'paragraph'); fr.addElement(draw.Image(href=ref))
+            if k == 3:
+                d.presentation.childNodes[0].addElement(fr)
+            else:
+                par = text.P(); par.addElement(fr); d.text.addElement(par)
     # --- embedded object, thumbnail, extra member
     if k == 2:
         sub = opendocument.OpenDocumentSpreadsheet()
@@ -123,6 +168,7 @@ def build(r):
         tr.addElement(table.TableCell()); sub.spreadsheet.addElement(t)
         sub.automaticstyles.addElement(style.Style(name=u'SubUnused', family=u'text'))
         sub.addPicture(u'Pictures/sub.png', u'image/png', PNG + b'sub')
+        sub.addPictureFromFile(new_file(PNG + b'sub-file'))
         cs = config.ConfigItemSet(name=u'ooo:sub'); sub.settings.addElement(cs)
         ref = d.addObject(sub)
         fr = draw.Frame(width=u'3cm', height=u'3cm', anchortype=u'paragraph'); fr.addElement(draw.Object(href=ref))
@@ -376,7 +422,8 @@ def dump_doc(doc, coder, top=True, parent=None):
         toks_node(k, coder, out)
     out.append(str(len(doc.Pictures)))
     for name, (what, content, mt) in doc.Pictures.items():
-        out += [enc_str(name), enc_str(mt), str(coder.blob(content))]
+        # a picture registered by file name: the state holds the path; the package holds 'what that file contains now'
+        out += [enc_str(name), enc_str(mt), str(coder.blob(content if what == 1 else ('FILE', content)))]
     if top:
         out.append(str(len(doc.childobjects)))
         for o in doc.childobjects:
@@ -389,7 +436,7 @@ def dump_doc(doc, coder, top=True, parent=None):
     return out
 
 
-def real_out_tokens(op, data, coder):
+def real_out_tokens(op, data, coder, filemap=None):
     if op in ('save', 'write'):
         ms = zip_members(data)
         out = ['P', str(len(ms))]
@@ -399,6 +446,8 @@ def real_out_tokens(op, data, coder):
                 out += ['b', enc_str(payload.decode('utf-8'))]
             elif name.endswith('.xml'):
                 out.append('x'); toks_infoset(parse_infoset(payload), coder, out)
+            elif filemap and name in filemap and payload == open(filemap[name], 'rb').read():
+                out += ['r', str(coder.blob(('FILE', filemap[name])))]
             else:
                 out += ['r', str(coder.blob(payload))]
         return out
@@ -440,8 +489,24 @@ def run_sequence(chk, recipe, ops, T, tv, lines, pend):
     prev = snapshot(doc)
     prev_dump = ' '.join(first_dump)
     for i, op in enumerate(ops):
+        if op == 'touch':
+            # not a call of the library: the picture files on disk get new content
+            touch(doc)
+            if snapshot(doc) != prev:
+                chk.fail('document-changed:touch', dict(case, at=i), 'rewriting a picture file changed the document snapshot')
+            seen.pop('save', None); seen.pop('write', None)
+            chk.count('op_touch')
+            continue
         data = call(doc, op)
         now = snapshot(doc)
+        if op in ('save', 'write'):
+            # rendering reads a picture given by file name each time: the package carries what the file holds now
+            members = dict((n, pl) for n, ct, pl in zip_members(data))
+            for name, path in sorted(picture_files(doc).items()):
+                chk.count('file_pictures_checked')
+                if members.get(name) != open(path, 'rb').read():
+                    chk.fail('stale-picture-bytes:' + op, dict(case, at=i),
+                             '%s(): member %s does not hold the current content of the file it was registered with' % (op, name))
         # --- purity
         verdict, why = judge_own(prev, now, tv)
         if verdict == 'changed':
@@ -469,16 +534,17 @@ def run_sequence(chk, recipe, ops, T, tv, lines, pend):
         dump = ' '.join(dump_doc(doc, coder))
         states.append('=' if dump == prev_dump else 'D ' + dump)
         prev_dump = dump
-        outs_tok.append(' '.join(real_out_tokens(op, data, coder)))
+        outs_tok.append(' '.join(real_out_tokens(op, data, coder, picture_files(doc))))
     chk.case((recipe['builder'], tuple(ops)), nontrivial=len(ops) >= 2,
              sample={'builder': recipe['builder'], 'ops': ops} if len(ops) > 3 else None)
     chk.count('seq_len_%d' % len(ops))
     chk.count('doc_%d' % recipe['builder'])
     for op in ops:
-        chk.count('op_' + op)
+        if op != 'touch':
+            chk.count('op_' + op)
     if first_dump[0] != 'UNMODELLED-TOPNODE':
-        lines.append('run %s %s %s' % (enc_str(tv), ''.join(LETTER[o] for o in ops), ' '.join(first_dump)))
-        pend.append((case, states, outs_tok))
+        lines.append('run %s %s %s' % (enc_str(tv), ''.join(LETTER[o] for o in ops if o != 'touch'), ' '.join(first_dump)))
+        pend.append((dict(case, ops=[o for o in ops if o != 'touch'], ops_with_touch=ops), states, outs_tok))
     else:
         chk.count('not_sent_to_model')
 
@@ -593,17 +659,25 @@ def sequences(chk, nrecipes):
             for a in OPS:
                 for b in OPS:
                     seqs.append((r, [a, b]))
+    for r in range(nrecipes):
+        # the picture files are rewritten between two packages
+        for t in (['save', 'touch', 'save'], ['write', 'save', 'touch', 'write', 'save'], ['save', 'touch', 'xml', 'save', 'save']):
+            seqs.append((r, list(t)))
     nrand = 1500 if chk.tier == 'thorough' else 300
     for _ in range(nrand):
         n = chk.rng.randint(3, 6)
-        seqs.append((chk.rng.randrange(nrecipes), [chk.rng.choice(OPS) for _ in range(n)]))
+        ops = [chk.rng.choice(OPS) for _ in range(n)]
+        if chk.rng.random() < 0.3:
+            ops.insert(chk.rng.randint(1, len(ops)), 'touch')
+        seqs.append((chk.rng.randrange(nrecipes), ops))
     return seqs
 
 
 def run(chk, replay=None):
     from odf.namespaces import TOOLSVERSION
     chk.rule = ('5 generated documents (metadata with a foreign / missing / doubled generator, settings, common and '
-                'automatic styles, master page, body, pictures, embedded objects, thumbnail, extra members, one loaded '
+                'automatic styles, master page, body, pictures (by file name, by content, by href only; also in an embedded object; the files '
+                'are rewritten between packages), embedded objects, thumbnail, extra members, one loaded '
                 'from a saved package) x all ordered pairs of the 7 output calls + random sequences of length 3..6 '
                 '(thorough: all sequences up to length 4); plus worlds of 2..6 live documents (two or three unrelated documents, '
                 'a parent with its embedded objects) with the calls interleaved over all of them, every live document '
